@@ -2,6 +2,7 @@
 from __future__ import annotations
 
 import math
+import random
 from fractions import Fraction
 
 from ..core import frac
@@ -11,7 +12,11 @@ RULE = ("bin tables of 1..6 chromosomes (incl. X/Y) x 1..400 bins, optional cent
         "null-coverage bins at the edges and inside, duplicate / Antitarget / '-' names; methods none, haar, hmm, "
         "hmm-tumor, hmm-germline x skip_low x skip_outliers {0,10} x min_weight {0,0.3} x processes {1,2,3,16}; "
         "the real do_segmentation output is checked by the Lean tile checker and compared with the Lean model of the "
-        "glue run on the partition read off the reported probes. non-trivial = a bin was filtered out or a chromosome "
+        "glue run on the partition read off the reported probes; about one case in six goes through the command line "
+        "(`cnvkit.py segment` on a written .cnr: -m METHOD, --drop-low-coverage present/absent, --drop-outliers {absent = 10, 0, 3, 10}, "
+        "-p {absent = 1, N, bare = all CPUs}, -t {absent, FDR for haar, smoothing window for the HMMs}; the table handed to the "
+        ".cns writer is judged like an API result, the written .cns must read back equal to it, and the same call through the "
+        "API with the same threshold must give the same segments). non-trivial = a bin was filtered out or a chromosome "
         "was split into arms or more than one segment was reported; distinct by hash")
 EXHAUSTIVE = {"quick": False, "thorough": False}
 ASSUMPTIONS = ["input bins sorted, non-overlapping, positive length (a .cnr table)",
@@ -78,7 +83,38 @@ def gen_cases(rng, tier):
                       "in": {"bins": rows, "method": method, "skip_low": rng.random() < 0.6,
                              "skip_outliers": rng.choice([0, 10, 10, 3]), "min_weight": rng.choice([0, 0, 0.3]),
                              "processes": rng.choice([1, 1, 2, 3, 16])}})
+    # one case in six goes through `cnvkit.py segment` (a separate random stream: the API cases above are unchanged)
+    crng = random.Random()
+    crng.setstate(rng.getstate())
+    for k in range(max(5, n // 6)):
+        cases.append(_cli_case(crng, k % len(METHODS), k // len(METHODS)))
     return cases
+
+
+def _r6(v):
+    return float("%.6g" % v)
+
+
+def _cli_case(rng, m, rnd):
+    """a case for the command line: the .cnr carries 6 significant digits, so the numeric inputs are pre-rounded to
+    survive the round trip exactly; there is no --min-weight option, so min_weight stays at the API default"""
+    method = METHODS[m]
+    rows = [r[:4] + [_r6(v) for v in r[4:]] for r in _table(rng, rng.random() < 0.25)]
+    # stratified, so that even a few rounds give every method both values of the flag and every outlier setting
+    skip_low = (m + rnd) % 2 == 0
+    outl = [0, 10, 3][(m + rnd) % 3]
+    procs = rng.choice([1, 1, 2, 3, 0])  # 0 = bare `-p`: all CPUs
+    if method == "haar":
+        thr = rng.choice([None, None, 0.0001, 0.01, 0.3, 1e-8])
+    elif method.startswith("hmm"):
+        thr = rng.choice([None, None, 0.25, 0.6, 5.0, 9.0])
+    else:
+        thr = rng.choice([None, 0.01])
+    # defaults left implicit in about half of the cases where the value is the parser's default
+    implicit = [name for name, dflt in (("outliers", outl == 10), ("processes", procs == 1)) if dflt and rng.random() < 0.6]
+    return {"op": "segment", "tag": "cli-" + method,
+            "in": {"bins": rows, "method": method, "skip_low": skip_low, "skip_outliers": outl, "min_weight": 0,
+                   "processes": procs, "threshold": thr, "implicit": implicit, "short": rng.random() < 0.5, "cli": True}}
 
 
 def corpus():
@@ -108,20 +144,135 @@ def _cna(rows):
                          meta_dict={"sample_id": "S"})
 
 
-def run_impl(case):
-    import numpy as np
-    from cnvlib import segmentation
-    i = case["in"]
-    cna = _cna(i["bins"])
-    method = i["method"]
-    per_arm = not method.startswith("hmm")
-    np.random.seed(12345)
-    seg = segmentation.do_segmentation(cna.copy(), method, skip_low=i["skip_low"], skip_outliers=i["skip_outliers"],
-                                       min_weight=i["min_weight"], processes=i["processes"])
+def _seg_rows(seg):
     d = seg.data
-    segs = [[str(d["chromosome"].iat[k]), int(d["start"].iat[k]), int(d["end"].iat[k]), str(d["gene"].iat[k]),
+    return [[str(d["chromosome"].iat[k]), int(d["start"].iat[k]), int(d["end"].iat[k]), str(d["gene"].iat[k]),
              frac(float(d["log2"].iat[k])), int(d["probes"].iat[k]), frac(float(d["weight"].iat[k])),
              frac(float(d["depth"].iat[k]))] for k in range(len(d))]
+
+
+def _argv(i, fin, fout):
+    """the command line of a CLI case; options whose value is the parser's default are left out when listed in
+    i["implicit"]; bare `-p` (all CPUs) goes last so that it cannot swallow the file name"""
+    short = i.get("short")
+    argv = ["segment", fin, "-o", fout, "-m" if short else "--method", i["method"]]
+    if i["skip_low"]:
+        argv.append("--drop-low-coverage")
+    if "outliers" not in i["implicit"]:
+        argv += ["--drop-outliers", "%g" % i["skip_outliers"]]
+    if i.get("threshold") is not None:
+        argv += ["-t" if short else "--threshold", repr(i["threshold"])]
+    if i["processes"] == 0:
+        argv.append("-p" if short else "--processes")
+    elif "processes" not in i["implicit"]:
+        argv += ["-p" if short else "--processes", str(i["processes"])]
+    return argv
+
+
+def _segment_cli(i):
+    """the same computation through the command line: write the .cnr, run `cnvkit.py segment`, take the table it
+    hands to the writer and check that the written .cns reads back equal to it.  Returns (bins as read, segments)."""
+    import logging
+    import os
+    import shutil
+    import tempfile
+    import numpy as np
+    from cnvlib import commands
+    from cnvlib.cmdutil import read_cna
+    from cnvlib.cnary import CopyNumArray as CNA
+    from skgenome import tabio
+    d = tempfile.mkdtemp(dir="/var/tmp", prefix="c03cli")
+    try:
+        fin, fout = os.path.join(d, "S.cnr"), os.path.join(d, "out", "S.cns")
+        os.mkdir(os.path.join(d, "out"))
+        # .cnr column order as `fix` writes it
+        tabio.write(CNA.from_rows([(r[0], r[1], r[2], r[3], r[6], r[4], r[5]) for r in i["bins"]],
+                                  columns=["chromosome", "start", "end", "gene", "depth", "log2", "weight"],
+                                  meta_dict={"sample_id": "S"}), fin)
+        cna = read_cna(fin)
+        got = [[str(r.chromosome), int(r.start), int(r.end), str(r.gene), float(r.log2), float(r.weight),
+                float(r.depth)] for r in cna]
+        if got != [list(r) for r in i["bins"]]:
+            raise AssertionError("harness: the written .cnr does not read back as the generated bins")
+        captured = []
+
+        class _Tab:
+            def __getattr__(self, name):
+                return getattr(tabio, name)
+
+            def write(self, garr, outfname=None, *a, **k):
+                captured.append((garr, outfname))
+                return tabio.write(garr, outfname, *a, **k)
+        saved = commands.tabio
+        commands.tabio = _Tab()
+        quiet = logging.root.manager.disable  # the harness workers already run with logging disabled: restore, not reset
+        logging.disable(logging.CRITICAL)
+        cwd = os.getcwd()
+        os.chdir(d)  # a default output name must not land in the harness directory
+        try:
+            np.random.seed(12345)
+            args = commands.parse_args(_argv(i, fin, fout))
+            args.func(args)
+        finally:
+            os.chdir(cwd)
+            logging.disable(quiet)
+            commands.tabio = saved
+        if len(captured) != 1 or captured[0][1] != fout or not os.path.exists(fout) or sorted(os.listdir(d)) != ["S.cnr", "out"]:
+            raise AssertionError("cnvkit.py segment did not write exactly one table, to the requested output")
+        seg = captured[0][0]
+        back = read_cna(fout)
+        cols = ("chromosome", "start", "end", "gene", "log2", "probes", "weight", "depth")
+        if len(back) != len(seg) or any(c not in back for c in cols):
+            raise AssertionError("the written .cns does not read back as the table segment computed (shape)")
+        for c in cols:
+            for a, b in zip(back[c], seg[c]):
+                if c in ("chromosome", "gene"):
+                    ok = str(a) == str(b)
+                elif c in ("start", "end", "probes"):
+                    ok = int(a) == int(b)
+                else:
+                    ok = abs(float(a) - float(b)) <= 1e-5 * max(1e-300, abs(float(b))) or (a != a and b != b)
+                if not ok:
+                    raise AssertionError(f"the written .cns does not read back as the table segment computed ({c}: {a!r} vs {b!r})")
+        return cna, seg
+    finally:
+        shutil.rmtree(d, ignore_errors=True)
+
+
+def _segment_api(i, cna):
+    import numpy as np
+    from cnvlib import segmentation
+    np.random.seed(12345)
+    extra = {"threshold": i["threshold"]} if i.get("threshold") is not None else {}
+    return segmentation.do_segmentation(cna.copy(), i["method"], skip_low=i["skip_low"], skip_outliers=i["skip_outliers"],
+                                        min_weight=i["min_weight"], processes=i["processes"], **extra)
+
+
+def _same_segs(a, b):
+    """True, or a description of the first difference between two segment lists"""
+    if len(a) != len(b):
+        return f"segment count {len(a)} (command line) vs {len(b)} (API)"
+    for x, y in zip(a, b):
+        if x[:4] != y[:4] or x[5] != y[5] or not all(_close(x[k], y[k]) for k in (4, 6, 7)):
+            return f"command line {x} vs API {y}"
+    return True
+
+
+def run_impl(case):
+    from cnvlib import segmentation
+    i = case["in"]
+    method = i["method"]
+    per_arm = not method.startswith("hmm")
+    cli_same = None
+    if i.get("cli"):
+        cna, seg = _segment_cli(i)
+        segs = _seg_rows(seg)
+        # the same call through the API (same threshold; bare -p = all CPUs): the options the model cannot see
+        # (threshold, processes) must not change anything else either
+        cli_same = _same_segs(segs, _seg_rows(_segment_api(i, _cna(i["bins"]))))
+    else:
+        cna = _cna(i["bins"])
+        segs = _seg_rows(_segment_api(i, cna))
     # units and masks, replicating the order of the filters with the real filter functions
     units_src = [ca for _c, ca in cna.by_arm()] if per_arm else [cna]
     units, keeps = [], []
@@ -138,7 +289,10 @@ def run_impl(case):
         units.append([[labels[k], (labels[k] in s1) and (labels[k] not in s2)] for k in range(len(labels))])
         keeps.append([labels[k] in s3 for k in range(len(labels))])
     arms_all = [len(ca) for _c, ca in cna.by_arm()]
-    return {"segs": segs, "units": units, "keeps": keeps, "arms": arms_all}
+    res = {"segs": segs, "units": units, "keeps": keeps, "arms": arms_all}
+    if cli_same is not None:
+        res["cli_same"] = cli_same
+    return res
 
 
 def _runs(segs, units_bins, keeps):
@@ -202,6 +356,8 @@ def judge(case, impl, resp):
     if "error" in resp:
         return [], ["model error: " + resp["error"]], None
     spec = list(resp.get("spec") or [])
+    if impl.get("cli_same", True) is not True:
+        spec.append("command_line_matches_api")
     dis = []
     if resp["keep"] != impl["keeps"]:
         dis.append("survive mask: model filters != real filters")
